@@ -549,7 +549,7 @@ def repeat_pairing_rule(ctx, facts, rid):
     for c in clos:
         fb = FxBuilder(facts)
         for n, _c, _i in walk_tree(fb.tree(c)):
-            if n[0] == "store" and "AddWithOverflow 1" in show(n[2]):
+            if n[0] == "store" and _plus_one(n):
                 okc = True
     fnp = facts.fns.get("<%s as owlchess::chain::Repeat>::push" % HR)
     ins1 = False
@@ -560,10 +560,18 @@ def repeat_pairing_rule(ctx, facts, rid):
                 ins1 = True
         # other shape: `*map.entry(k).or_insert(0) += 1`
         ins0 = any(n[0] == "call" and (n[2] or "").endswith("or_insert") and n[3][1] == ("const", 0, "usize") for n, _c, _i in walk_tree(fb.tree(fnp)))
-        inc = any(n[0] == "store" and "AddWithOverflow 1" in show(n[2]) and "or_insert" in show(unstamp(n[1])) for n, _c, _i in walk_tree(fb.tree(fnp)))
+        inc = any(n[0] == "store" and _plus_one(n) and "or_insert" in show(unstamp(n[1])) for n, _c, _i in walk_tree(fb.tree(fnp)))
         if ins0 and inc:
             okc = ins1 = True
     r.check(okc and ins1, "HashRepeat::push/increment", "HashRepeat::push does not increment by one / insert 1", what="push: count += 1 or insert 1")
+
+
+def _plus_one(n):
+    """The store writes exactly (what the place held) + 1 - nothing clamps or rescales the count."""
+    place, v = unstamp(n[1]), unstamp(n[2])
+    one = ("const", 1, "usize")
+    return v in (("field", ("bin", "AddWithOverflow", place, one), "#0"), ("bin", "Add", place, one),
+                 ("field", ("bin", "AddWithOverflow", one, place), "#0"), ("bin", "Add", one, place))
 
 
 # ---------------------------------------------------------------------------------------------- C17
